@@ -154,6 +154,15 @@ def operations(m):
             a = mm.h('a')
             mm.files[a] = mm.files[a].replace('#include "%s"' % c, '#include "%s"' % c2)
         ops.append(('rename ' + c, [m.h('a')], ren))
+    if m.util == 'util.c' and m.exe == 'prog' and not m.pch:
+        # the source of an object is renamed while the object keeps its path (the stale depfile
+        # still names the old source)
+        def rensrc(mm):
+            mm.files['utilr.c'] = mm.files.pop('util.c')
+            mm.util = 'utilr.c'
+            mm.files['build.bfg'] = ("executable('prog', ['main.c', object_file('prog.int/util', "
+                                     "file='utilr.c')])\n")
+        ops.append(('rename-source util.c', ['util.c', 'utilr.c'], rensrc))
     ops.append(('clean', None, None))
     return ops
 
@@ -178,8 +187,8 @@ def compiles(cclog):
         argv = line.rstrip('\n').split('\x1f')
         if '-c' in argv:
             for a in argv:
-                if os.path.basename(a) in ('main.c', 'util.c'):
-                    out.append(os.path.basename(a))
+                if os.path.basename(a) in ('main.c', 'util.c', 'utilr.c'):
+                    out.append('util.c' if os.path.basename(a) == 'utilr.c' else os.path.basename(a))
     return sorted(out)
 
 
